@@ -69,11 +69,34 @@ def is_none_test(test, pname):
     return None
 
 
+class _Subst(ast.NodeTransformer):
+    def __init__(self, env):
+        self.env = env
+
+    def visit_Name(self, n):
+        return self.env.get(n.id, n) if isinstance(n.ctx, ast.Load) else n
+
+
+def _subst(expr, env):
+    import copy
+    return _Subst(env).visit(copy.deepcopy(expr))
+
+
+SYM = {}
+
+
 def store_expr(expr, params, local_norm):
     """classify the expression a constructor stores into an attribute"""
-    if isinstance(expr, ast.Name) and expr.id in params:
+    if isinstance(expr, ast.Name) and (expr.id in params or expr.id in SYM):
         n = local_norm.get(expr.id)
-        return f'.param {lean_str(expr.id)} {lean_str(n) if False else ("(.other " + lean_str(n) + ")" if n else ".id")}'
+        if expr.id in SYM and not (n or "").startswith("ifNoneNew:"):
+            # a normalised parameter: ONE canonical expression over the original parameter, whatever locals were used on the way
+            e2 = SYM[expr.id]
+            free = {x.id for x in ast.walk(e2) if isinstance(x, ast.Name)} & set(params)
+            if len(free) == 1:
+                return f'.param {lean_str(next(iter(free)))} (.other {lean_str(src(e2))})'
+        if expr.id in params:
+            return f'.param {lean_str(expr.id)} {("(.other " + lean_str(n) + ")" if n else ".id")}'
     if isinstance(expr, ast.IfExp):
         t = is_none_test(expr.test, None)
         if t and t[0] == "notnone" and isinstance(expr.body, ast.Name) and expr.body.id == t[1] and t[1] in params:
@@ -114,6 +137,7 @@ def describe_raw(path, cname):
                 none_default.append(n)
         local_norm = {}
         pending_none = {}
+        SYM.clear()
 
         def visit(stmts):
             nonlocal inherited
@@ -136,6 +160,11 @@ def describe_raw(path, cname):
                     # local re-assignment of a parameter: p = f(p)
                     if isinstance(tgt, ast.Name) and tgt.id in params:
                         local_norm[tgt.id] = (local_norm.get(tgt.id, "") + ";" if tgt.id in local_norm else "") + src(val)
+                        SYM[tgt.id] = _subst(val, SYM)
+                        continue
+                    # any other local: remembered symbolically
+                    if isinstance(tgt, ast.Name):
+                        SYM[tgt.id] = _subst(val, SYM)
                         continue
                 if isinstance(st, ast.AnnAssign) and st.value is not None:
                     a = attr_of(st.target, {"self"})
@@ -157,6 +186,7 @@ def describe_raw(path, cname):
                         for b in st.body:
                             p = b.targets[0].id
                             local_norm[p] = (local_norm[p] + ";" if p in local_norm else "") + f"if {src(st.test)}: {src(b.value)}"
+                            SYM[p] = ast.IfExp(test=_subst(st.test, SYM), body=_subst(b.value, SYM), orelse=SYM.get(p, ast.Name(id=p, ctx=ast.Load())))
                         continue
                     # any other branching that stores attributes is not in the extractor's subset
                     sub = [s2 for s2 in ast.walk(st) if isinstance(s2, (ast.Assign, ast.AnnAssign))]
@@ -177,8 +207,12 @@ def describe_raw(path, cname):
     yr = find_func(cls, "_yaml_repr")
     if yr is not None:
         ret = [n for n in ast.walk(yr) if isinstance(n, ast.Return) and n.value is not None]
-        if len(ret) == 1 and isinstance(ret[0].value, ast.Dict):
-            for k, v in zip(ret[0].value.keys, ret[0].value.values):
+        rv = ret[0].value if len(ret) == 1 else None
+        if isinstance(rv, ast.Call) and src(rv.func) == "dict" and not rv.args and all(kw.arg for kw in rv.keywords):
+            # `dict(key=value, ...)` is the literal `{"key": value, ...}`
+            rv = ast.Dict(keys=[ast.Constant(value=kw.arg) for kw in rv.keywords], values=[kw.value for kw in rv.keywords])
+        if isinstance(rv, ast.Dict):
+            for k, v in zip(rv.keys, rv.values):
                 if not (isinstance(k, ast.Constant) and isinstance(k.value, str)):
                     rep.append((src(k), f".other {lean_str(src(v))}"))
                     continue
